@@ -444,6 +444,11 @@ BRIDGE = {
                      "responder_is_empty_eq", "add_classic_request_sim", "add_ietf_request_sim"],
         "props": ["C02", "C09", "C10", "C11"],
     },
+    "Rough.Bridge.SendResponses": {
+        "rs_modules": ["Responder", "Online", "Message", "Merkle"],
+        "theorems": ["send_responses_sim"],
+        "props": ["C08", "C09", "C17"],
+    },
     "Rough.Bridge.Merkle": {
         "rs_modules": ["Merkle"],
         "theorems": ["new_eq", "node_len_eq", "hash_leaf_eq", "hash_nodes_eq", "finalize_output_sim", "push_leaf_sim", "reset_eq",
@@ -461,6 +466,7 @@ _BRIDGE_WHAT = {
     "Rough.Bridge.Merkle": "merkle.rs (push_leaf, compute_root, get_paths, root_from_paths, reset)",
     "Rough.Bridge.Client": "roughenough-client.rs (make_request, receive_response, ResponseHandler::new + extract_time with every validate_* step)",
     "Rough.Bridge.Keys": "online.rs / longterm.rs / responder.rs (make_dele, make_cert, classic_midp, rfc_midp, make_srep, make_response, add_*_request, reset)",
+    "Rough.Bridge.SendResponses": "responder.rs send_responses (the whole batch loop incl. failing sends, fault injection, lazily evaluated debug! arguments, statistics events)",
 }
 for _pid, _cfg in PROPS.items():
     _bs = _cfg.get("bridge", [])
